@@ -22,6 +22,8 @@ pub struct Cfg {
     pub out: Option<String>,
     pub scale_num: u64,
     pub scale_den: u64,
+    /// tiny workloads for the Miri interpreter
+    pub miri: bool,
 }
 
 pub const BACKEND: &str = if cfg!(feature = "pext") { "pext" } else { "magic" };
@@ -148,6 +150,7 @@ pub struct Cx {
     pub tier: Tier,
     scale_num: u64,
     scale_den: u64,
+    pub miri: bool,
 }
 
 impl Cx {
@@ -161,6 +164,7 @@ impl Cx {
             tier: cfg.tier,
             scale_num: cfg.scale_num,
             scale_den: cfg.scale_den,
+            miri: cfg.miri,
         }
     }
 
@@ -170,6 +174,10 @@ impl Cx {
             Tier::Quick => quick_total,
             Tier::Thorough => thorough_total,
         };
+        if self.miri {
+            // a few dozen operations: Miri interprets at roughly 10^4..10^5 times native cost
+            return (t / 50_000).clamp(8, 40);
+        }
         let t = t * self.scale_num / self.scale_den;
         let per = t / self.shards as u64;
         per.max(1)
